@@ -798,3 +798,53 @@ Definition s_none : state := init_state HNone (fun _ => []).
 Lemma restored_needs_hook :
   hook_ (fst (run [With 0 [With 0 []]] s_none)) = HTag 0 /\ hook_ s_none = HNone.
 Proof. vm_compute. split; reflexivity. Qed.
+
+(* ---- sessions: statements interleaved with copies of tags ------------------------------- *)
+Lemma agree_copy : forall src dst s x, agree s x -> agree (copy_tag src dst s) (s_copy src dst x).
+Proof.
+  intros src dst s x (Hu & Hk & Hl). repeat split; cbn; auto; intros u; destruct (Nat.eqb u dst); auto.
+Qed.
+
+Theorem session_refines : forall l r s x,
+  agree s x -> hook_ s = hook_of r ->
+  agree (fst (run_top l s)) (fst (sem_top r l x)) /\
+  snd (run_top l s) = snd (sem_top r l x) /\
+  hook_ (fst (run_top l s)) = hook_of r.
+Proof.
+  induction l as [|[st|src dst] l IH]; intros r s x Ha Hh.
+  - cbn. auto.
+  - cbn [run_top sem_top]. destruct (refines_all_stmt st r s x Ha Hh) as (A1 & A2 & A3).
+    destruct (run_stmt st s) as [s' o]. destruct (sem_stmt r st x) as [x' o'].
+    cbn [fst snd] in *. subst o'. destruct o; cbn [fst snd]; auto.
+  - cbn [run_top sem_top]. apply IH; [apply agree_copy; exact Ha|exact Hh].
+Qed.
+
+Theorem session_restored : forall l s,
+  hook_ s <> HNone -> hook_ (fst (run_top l s)) = hook_ s.
+Proof.
+  intros l s H. destruct (recv_of_hook _ H) as [r Hr].
+  destruct (session_refines l r s (abs s) (agree_abs s) Hr) as (_ & _ & K). congruence.
+Qed.
+
+(* a copy taken before the original was ever entered is an independent tag: what is displayed
+   inside the copy's block goes to the copy, the original does not grow, and the object handed
+   to the enclosing hook is the copy *)
+Theorem copy_independent : forall src dst vs s,
+  src <> dst -> prev s src = HNone -> hook_ s = HBase ->
+  let s' := fst (run_stmt (With dst (map Display vs)) (copy_tag src dst s)) in
+  children s' dst = children s src ++ fst (shown_all vs) /\
+  children s' src = children s src /\
+  log s' = log s ++ [DTagRef dst] /\
+  hook_ s' = HBase.
+Proof.
+  intros src dst vs s Hne Hp Hh. cbn zeta.
+  set (s0 := copy_tag src dst s).
+  assert (P0 : prev s0 dst = HNone) by (cbn; rewrite Nat.eqb_refl; exact Hp).
+  assert (H0 : hook_ s0 <> HNone) by (cbn; congruence).
+  rewrite (with_entered dst _ s0 P0 H0). cbn [fst].
+  destruct (displays_collected vs dst (entered dst s0) eq_refl) as (D1 & D2 & _ & _ & D5 & _).
+  assert (Hs : hook_ s0 = HBase) by exact Hh. rewrite Hs. unfold deliver_tag.
+  cbn [add_log set_hook children log hook_].
+  rewrite D1, D5, (D2 src Hne). cbn. rewrite Nat.eqb_refl.
+  destruct (Nat.eqb src dst) eqn:Q; [apply Nat.eqb_eq in Q; congruence|]. auto.
+Qed.
